@@ -5,7 +5,7 @@ from fractions import Fraction
 
 from .. import alg, dag, literature as lit
 from ..arr import Arr
-from ..pe import PE, Obj, PERaise
+from ..pe import PE, Obj, PERaise, decide_on_values
 from ..src import load
 
 LEVEL = "proof"
@@ -183,7 +183,7 @@ def run(chk):
                     pe.overrides["eko.matchings.Atlas.path"] = lambda pe_, args, kwargs: [s1, s2]
                     pe.overrides["eko.matchings.lepton_number"] = lambda pe_, args, kwargs: 3
                     # named regime: both segments have non-negligible length
-                    pe.assume = lambda text, env: True if text == "not np.isclose(seg.origin, seg.target)" else None
+                    pe.assume = lambda text, env, pe=pe: decide_on_values(pe, text, env) if "isclose" in text else None  # distinct symbolic scales are not close
                     try:
                         out = pe.apply(pe.getattr(self_, "a"), [dag.sym("mu1"), nf_b], {})
                     except PERaise as e:
@@ -251,7 +251,7 @@ def run(chk):
                 def assume(text, env):
                     # the first segment (wall -> wall) is decided by the evaluator itself (identical scales are close); the second has
                     # non-negligible length
-                    return True if text == "not np.isclose(seg.origin, seg.target)" else None
+                    return decide_on_values(pe, text, env) if "isclose" in text else None
 
                 pe.overrides[f"{CP}.Couplings.compute"] = compute_model2
                 pe.overrides["eko.matchings.Atlas.path"] = lambda pe_, args, kwargs: [s1, s2]
